@@ -58,8 +58,13 @@ driver raises, or is passed over — patch 06, the current tree).
     for every well-formed host and implementation, every use in which nothing is removed (`keepsAllB`: designated cell
     exists, no connected-but-ignored input pin, every unconnected output is driven by a node that stays; this contains
     regular use, `regular_keepsAll`, and allows unconnected input pins), cell neither port nor fork, under the decidable
-    side conditions `implOKB` on the implementation (designated cell not a port, ports distinct, no port a
-    flip-flop/latch, a port that is driven and read inside is a fork).  Relational form, no acyclicity / evaluation order:
+    side conditions `implOKB` on the implementation (there is a designated cell, ports distinct, no port a
+    flip-flop/latch, a port that is driven and read inside is a fork; the earlier clause "designated cell not a port" is
+    gone with the repair of D32, see below).  The theorems are about `substitute` WITH the loop added by the repair of D30
+    (`densify`: the outputs of copied forks made gap-free, driver pins renumbered) and need NO `denseB`: the loop keeps
+    the circuit well-formed, changes only output lists of copied forks and the driver pins of their lines, and a fork's
+    equation does not look at the driver pin (Proofs/Densify.lean) — `exGapImpl` is a use with a gap.
+    Relational form, no acyclicity / evaluation order:
     with `ImplMatches h c m sh anm vm v` = "`(anm, vm)` is a consistent labelling of the implementation whose ports carry
     the values of the instance's lines in the host labelling `v`" (the line of an input port whose instance pin is
     unconnected is ABSENT in the implementation, `cutIns m (deadLine …)` — kyupy's own reading of a missing pin, finding
@@ -70,10 +75,13 @@ driver raises, or is passed over — patch 06, the current tree).
     (so the new state elements capture what the implementation's capture); the result is well-formed (`substitute_wf`),
     `node_map` is injective, keeps kinds, host nodes / ports / line indices are untouched, the new lines are the copied
     lines in order.  `consOff_consistent` ties `ConsOff … ∅` to `consistentB` of C01.
-    `substitute_designated_port_not_wf` — kernel-checked witness that the side condition "designated cell is not a port"
-    is needed: for a Verilog-style feed-through implementation the real `substitute` (and the model) return a circuit that
-    is not well-formed (a copied line loses its reader pin to the instance's input line; `copy()` of it changes the function)
-    — finding D32.
+    `substitute_designated_port_not_wf` / `substitute_feedthrough_repaired` — finding D32 and its repair: under the EARLIER rule
+    (`substituteOld`, Model/SubstSem.lean: the node at which the walk from the first output ends is the designated cell
+    even when it is a port) a Verilog-style feed-through implementation made `substitute` return a circuit that is not
+    well-formed (a copied line loses its reader pin to the instance's input line; `copy()` of it changes the function);
+    with the repaired rule (a port is no designated cell: `implShape`, the model of the current code) the same input gives the
+    well-formed feed-through, and under `implOKB` the designated cell is never a port (`implShape_des_notPort`), so that
+    clause is no longer a hypothesis.
     **`remove_dangling_sem`** — `remove_dangling_nodes` (model `removeDangling`, every circuit that is well-formed up to trailing
     `None`s, any start nodes / `only` set): the result is well-formed up to trailing `None`s and embeds into the circuit
     before (index maps `r`: kinds, names, ports, state elements, the lines read at every pin and the driver of every
@@ -81,11 +89,13 @@ driver raises, or is passed over — patch 06, the current tree).
     removed lines that satisfy their equations.  **`substitute_sem_removing`** — `substitute` with an unconnected output whose
     driver dangles (`noIgnoredB`: designated cell, no connected-but-ignored input pin; any outputs): the result is the
     circuit `substituteCore` builds, for which `SubstSemStmt` (the conclusion of `substitute_sem`) holds, with dangling logic
-    removed as in `remove_dangling_sem`.  The result need not satisfy `NNet.wf`: `Line.remove()` leaves a trailing `None` in
+    removed as in `remove_dangling_sem` (the loop `densify` in between is absorbed: it is an identity embedding).  The
+    result need not satisfy `NNet.wf`: `Line.remove()` leaves a trailing `None` in
     the pin list of a cell (example `exImplFZ`; then `copy_dump_eq` does not apply to it).
     NOT covered (modelled, covered by `substitute_ports` / `substitute_state_perm` and the oracle only): an input pin that
     the implementation ignores (`Line.remove` renumbers lines inside the loop), an implementation without designated cell
-    (`node.remove()`), implementations violating `implOKB`.
+    (`node.remove()`: no output and no state element, or — since the repair of D32 — a feed-through), implementations
+    violating `implOKB`.
   - **`resolve_sem`** — `resolve_tlib_cells` (model `resolveCells`) when every substitution along the loop removes nothing
     (`resolveOKB`, decidable by running the model): the result is well-formed, keeps ports, other nodes and node keys, and
     its consistent labellings are exactly the labellings of the original circuit that are consistent outside the library
@@ -105,9 +115,12 @@ driver raises, or is passed over — patch 06, the current tree).
 * **Oracle only** (harness/c10.py): for the uses of `substitute` / `resolve_tlib_cells` outside the hypotheses of
   `substitute_sem` / `resolve_sem` (something is removed, `implOKB` fails) the semantic statement (Boolean function at
   ports and state elements unchanged) is decided on the real code by simulation before/after (random compositions, every
-  library cell × pin subsets, synthetic libraries); the same simulation also runs on the covered uses.  That the real
-  circuits satisfy `keepsAllB` / `implOKB` / `resolveOKB` is not evaluated by the harness yet (the predicates are
-  executable model functions). -/
+  library cell × pin subsets, synthetic libraries); the same simulation also runs on the covered uses.  The harness
+  evaluates `keepsAllB` / `implOKB` / `noIgnoredB` / `resolveOKB` / `denseB` on every real case of the correspondence streams
+  (driver commands `substok` / `resolveok`), counts how many fall under the theorems (tags `sem-hyp:*`, with
+  `sem-hyp:covered-gap` = a copied fork had a gap) and checks `wf` of the REAL result there.
+  D30 / D32 are repaired in the code under test; their witnesses (`FORK_GAP_WITNESS` in harness/c09.py,
+  corpus/C10-designated-port.json) run first in every run and are violations if the behaviour returns. -/
 namespace KV.C10
 open KV KV.Transform
 variable {skip : Bool}
@@ -394,7 +407,8 @@ theorem substitute_wiring (h m h' : NNet) (c : Nat) (hw : h.wf = true) (hc : c <
 theorem regular_keepsAll (h m h' : NNet) (c : Nat) (hr : regularB h c m = true) (he : substitute h c m = some h') :
     keepsAllB h c m = true := regularB_keepsAll h c m h' hr he
 
-/-- `substitute`, when nothing is removed, returns a well-formed circuit (side conditions as for `substitute_sem`) -/
+/-- `substitute`, when nothing is removed, returns a well-formed circuit (side conditions as for `substitute_sem`; no
+    `denseB`: the loop added with the repair of D30 keeps the circuit well-formed, Proofs/Densify.lean) -/
 theorem substitute_wf (h m h' : NNet) (c : Nat) (hw : h.wf = true) (mw : m.wf = true) (hc : c < h.net.nodes.size)
     (hio : h.net.io.contains c = false) (hcf : (h.net.node c).isFork = false)
     (hr : keepsAllB h c m = true) (hok : implOKB m = true) (he : substitute h c m = some h') : h'.wf = true := by
@@ -402,8 +416,9 @@ theorem substitute_wf (h m h' : NNet) (c : Nat) (hw : h.wf = true) (mw : m.wf = 
   exact wf_of_WF ct.wf'
 
 /-- **the semantic statement about `substitute`** (conclusion of `substitute_sem`; `h'` = the circuit after the implementation
-    has been copied in and connected, before dangling logic is removed — which is the result of `substitute` when nothing
-    is removed).  `substitute` preserves the function (full semantic statement; all uses in which nothing is removed, `keepsAllB`:
+    has been copied in and connected and the outputs of the copied forks made dense, before dangling logic is removed —
+    which is the result of `substitute` when nothing is removed; the statement holds for the circuit before AND after the
+    densifying loop, `substitute_sem_removing` uses it for the former).  `substitute` preserves the function (full semantic statement; all uses in which nothing is removed, `keepsAllB`:
     regular use — `regular_keepsAll` —, unconnected input pins, unconnected outputs whose driver stays).
     Vocabulary (Model/SubstSem.lean, Proofs/SubstSem1.lean): `ConsOff nn S an v` — the labelling `v` of the lines of `nn`
     under the node-indexed assignment `an` satisfies the equation (`lineEq`, Model/Net.lean) of every line whose driver
@@ -413,7 +428,7 @@ theorem substitute_wf (h m h' : NNet) (c : Nat) (hw : h.wf = true) (mw : m.wf = 
     assigned the value of the host line at its instance pin (`portVal`: `z` for an unconnected pin and for output ports),
     and output line `k` of `m` carries the value of the host line at output pin `k` of the instance.
     For every well-formed host `h` and implementation `m`, cell `c` (no port, no fork), when nothing is removed
-    (`keepsAllB`) and under the side conditions `implOKB m` (designated cell no port, ports distinct, no port a flip-flop/latch, driven
+    (`keepsAllB`) and under the side conditions `implOKB m` (a designated cell exists, ports distinct, no port a flip-flop/latch, driven
     ports that are read inside are forks), with `h' = substitute h c m`:
     * `h'` is well-formed; `node_map` (`map`) is injective, sends the designated cell to `c` and everything else behind the
       host's nodes, keeps the kinds (ports become forks); ports and all other nodes of the host are untouched; the lines
@@ -512,7 +527,9 @@ theorem remove_dangling_sem {α : Type _} (fuel : Nat) (nn nn' : NNet) (own : Li
 /-- **`substitute` with removal of dangling logic** (an unconnected output of the instance whose driver dangles): designated
     cell exists and no connected input pin is ignored (`noIgnoredB`; no condition on the outputs), `implOKB`.  The result
     `h'` of `substitute` is the circuit `h5` that `substituteCore` builds — for which the full semantic statement
-    `SubstSemStmt` holds — with dangling logic removed: `h'` embeds into `h5` as in `remove_dangling_sem` (well-formed up
+    `SubstSemStmt` holds — with the copied forks made dense (`densify`: an identity embedding) and dangling logic removed:
+    `h'` embeds into `h5` as in `remove_dangling_sem` (when nothing is removed `h'` is `h5` densified, and `h5` itself
+    under `denseB`; well-formed up
     to trailing `None`s, index maps `r`, same ports, all state elements, every surviving node reads the same lines,
     restrict / extend / extension exists).  Composition (the last two clauses): (1) every consistent labelling of `h'` is the
     restriction of a labelling of `h5` under which the host is consistent outside the cell and the cell has the relational
@@ -800,6 +817,22 @@ theorem substitute_feedthrough_repaired :
     (substitute exFeedHost 1 exFeed).map (fun r => (r.net.lines.toList, (copyNet r).net.lines.toList)) =
       some ([⟨0, 0, 2, 0⟩, ⟨2, 0, 1, 0⟩], [⟨0, 0, 2, 0⟩, ⟨2, 0, 1, 0⟩]) := by
   decide +kernel
+
+/-- a use of `substitute` in which a copied fork gets a GAP (the shape of D30; `C09.exGap` at object level): fork `F` of the
+    implementation drives the output port `O1` at pin 0 and the `INV1` at pin 1, the instance has `O1` open.  Nothing is removed
+    (`keepsAllB`: `F` keeps a connected output), `denseB` is false, `substituteCore` leaves `u~F.outs = [None, line 2]` and
+    `substitute` makes it `[line 2]` with `driver_pin` 0 — `substitute_wf` / `substitute_sem` apply (they need no `denseB`) -/
+def exGapImpl : NNet :=
+  { net := { nodes := #[⟨"input", [], [some 0]⟩, ⟨"__fork__", [some 0], [some 1, some 2]⟩, ⟨"INV1", [some 2], [some 3]⟩,
+                        ⟨"output", [some 1], []⟩, ⟨"output", [some 3], []⟩],
+             lines := #[⟨0, 0, 1, 0⟩, ⟨1, 0, 3, 0⟩, ⟨1, 1, 2, 0⟩, ⟨2, 0, 4, 0⟩], io := [0, 4, 3] },
+    names := #["A", "F", "X", "O1", "O2"] }
+example : exGapImpl.wf = true ∧ exFeedHost.wf = true ∧ exFeedHost.net.io.contains 1 = false ∧ (exFeedHost.net.node 1).isFork = false ∧
+    keepsAllB exFeedHost 1 exGapImpl = true ∧ implOKB exGapImpl = true ∧ regularB exFeedHost 1 exGapImpl = false ∧
+    denseB exFeedHost 1 exGapImpl = false ∧
+    (substituteCore exFeedHost 1 exGapImpl).map (fun r => (r.1.net.node 3).outs) = some [none, some 2] ∧
+    (substitute exFeedHost 1 exGapImpl).map (fun r => (r.wf, (r.net.node 3).kind, (r.net.node 3).outs, r.net.line 2)) =
+      some (true, "__fork__", [some 2], ⟨3, 0, 1, 0⟩) := by decide +kernel
 
 /-- the removing cases are modelled too (they are covered by `substitute_ports` and `substitute_state_perm`): with output
     pin 1 of the instance unconnected the `OR2` of `exImpl` dangles and is removed; with an implementation that ignores
